@@ -1,20 +1,22 @@
 (** Token-level runner of C11 histories: everything of Model/RunSrv.v plus
-    [TB "AOFREAD"]
+    [TB "AOFREAD"; TI t]
         -> [TB file bytes; TI 0 (ends on a frame boundary) / 1; TI n; the n frames decoded from the file]
+        in the canonical form of Model/Aof.v canon_record (PEXPIREAT deadlines as "still ahead at t" 1 / 0,
+        SREM members sorted)
     [TB "AOFREPLAY"; TI c; TI t; TI mode; TI k; k dump request frames; (TI n; n replies of the replay server)]
         the logged commands are re-executed at time t on an empty server (the replies of the
         implementation's second server serve as oracles for random commands); the k dump requests are
         run on the live server (connection c) and on the replayed one
         mode 1 -> [TI agree; TI n; n replay replies; TI k; k live dump replies; k replay dump replies]
         mode 0 -> [TI agree; TI n; TI k; k flags (1 = this dump request got the same answer)]
-    [TB "AOFRESTART"; TI c; TI t; TI k; k dump request frames]
-        the server process is restarted on the same directory:
+    [TB "AOFRESTART"; TI c; TI t; TI k; k dump request frames; (TI n; n oracles as for AOFREPLAY)]
+        the server process is restarted on the same directory and replays the file (831b342):
         -> [TI 1; k dump replies] from a new connection c ([TI 0] = start-up failed: never, after 39510e9)
     The plain ops go through Model/RunLua.v (script cache: SCRIPT LOAD / EVALSHA).  The second
     server of AOFREPLAY has an empty script cache: EVALSHA answers NOSCRIPT there.
     [TB "CMDQ"; TI c; TI t; request frame]    -> []   (the command runs, its reply is not compared) *)
 From Ferrous Require Import Base.Bytes Model.Resp Model.Types Model.Server Model.Conn Model.RunBase
-  Model.RunSrv Model.RunLua Model.Aof.
+  Model.RunSrv Model.RunLua Model.Blocking Model.RunBlk Model.Aof.
 Open Scope Z_scope.
 
 Definition tok_eqb (a b : tok) : bool :=
@@ -84,7 +86,7 @@ Definition aof_op (s : server) (op : list tok) : option (list tok * server) :=
   match op with
   | TB name :: rest =>
       if beq name (bs "AOFREAD") then
-        let file := aof_bytes s in
+        let file := aof_canon_bytes (match rest with (TI t) :: _ => t | _ => 0 end) s in
         match aof_decode file with
         | (fs, st, rest') =>
             Some (TB file :: TI (match st, rest' with NeedMore, [] => 0 | _, _ => 1 end)
@@ -120,8 +122,15 @@ Definition aof_op (s : server) (op : list tok) : option (list tok * server) :=
       else if beq name (bs "AOFRESTART") then
         match rest with
         | TI c :: TI t :: TI k :: ft =>
-            match run_dump t (connect (restart s) c) c (fst (dec_frames (Z.to_nat k) ft [])) [] with
-            | (reps, s') => Some (TI 1 :: enc_frames reps, s')
+            match dec_frames (Z.to_nat k) ft [] with
+            | (dump, ft') =>
+                let oracles := match ft' with
+                               | TI n :: rt => fst (dec_frames (Z.to_nat n) rt [])
+                               | _ => []
+                               end in
+                match run_dump t (connect (restart_o t s (zip_oracles (aof_log s) oracles)) c) c dump [] with
+                | (reps, s') => Some (TI 1 :: enc_frames reps, s')
+                end
             end
         | _ => Some ([TB (bs "BADOP")], s)
         end
@@ -161,4 +170,26 @@ Fixpoint c11_ops (st : lua_state) (ops : list (list tok)) : list (list tok) :=
   | [] => []
   | op :: r => match c11_op st op with (o, st') => o :: c11_ops st' r end
   end.
-Definition run_c11 (ops : list (list tok)) : list (list tok) := c11_ops ((init_server None, [], []), []) ops.
+(** histories with blocking pops (BSEND / BRECV ...) run on the runner of C13 (Model/RunBlk.v: server and
+    blocking manager side by side, event-loop iterations after every op) *)
+Definition with_server (r : rstate) (s : server) : rstate :=
+  {| r_s := s; r_b := r_b r; r_now := r_now r; r_sent := r_sent r; r_read := r_read r; r_fin := r_fin r |}.
+Definition c11b_op (r : rstate) (op : list tok) : list tok * rstate :=
+  match aof_op (r_s r) op with
+  | Some (o, s') =>
+      (o, match op with
+          | TB name :: _ => if beq name (bs "AOFRESTART") then with_server init_rstate s' else with_server r s'
+          | _ => with_server r s'
+          end)
+  | None => blk_op r op
+  end.
+Fixpoint c11b_ops (r : rstate) (ops : list (list tok)) : list (list tok) :=
+  match ops with
+  | [] => []
+  | op :: rest => match c11b_op r op with (o, r') => o :: c11b_ops r' rest end
+  end.
+Definition is_bop (op : list tok) : bool :=
+  match op with TB name :: _ => beq name (bs "BSEND") || beq name (bs "BRECV") | _ => false end.
+Definition run_c11 (ops : list (list tok)) : list (list tok) :=
+  if existsb is_bop ops then c11b_ops init_rstate ops
+  else c11_ops ((init_server None, [], []), []) ops.
